@@ -16,7 +16,7 @@ func init() {
 	property("C06",
 		"Static conformance of the hoisting mechanism: (a) each inline arm of the argument loop records one text/movement with the command being built, the index of the argument being built, the owning script name, and leaves one placeholder in the argument; (b) addImplicitTexts / addImplicitMovements patch exactly that argument with a label, on a miss define the label once (same key for lookup and insert, the per-script counter used is the one incremented, content and string type copied from the record, local scope), dedup keys cover content and string type / separator-joined steps; (c) every *impData produced by a callee flows into the value the function returns (or into the program) on every successful path — nothing collected on the way up is lost; (d) label formats; (e) every program text is emitted and hoisted movements are dispatched to the movement emitter.",
 		[]string{"Go map equality of the dedup key struct (content, string type)", "scheme argument of DESIGN §4 C06"},
-		"C06.a", "C06.b", "C06.c", "C06.d", "C06.e", "C12.a", "C20.d", "C09.b")
+		"C06.a", "C06.b", "C06.c", "C06.d", "C06.e", "C12.a", "C20.d", "C09.b", "C10.f")
 
 	register(&Rule{ID: "C06.a", Doc: "inline arms record (command, argument index, script, content) and leave a placeholder", Floor: 4, Run: c06a})
 	register(&Rule{ID: "C06.b", Doc: "patch-and-define protocol of addImplicitTexts / addImplicitMovements", Floor: 14, Run: c06b})
@@ -619,6 +619,8 @@ func c06c(c *Ctx) {
 		flows := map[ssa.Value][]ssa.Value{}
 		sinkRet := map[ssa.Value][]*ssa.Return{}
 		otherSink := map[ssa.Value]bool{}
+		otherSinkAt := map[ssa.Value][]ssa.Instruction{}
+		consumedAt := map[ssa.Value][]ssa.Instruction{}
 		addCallOf := map[ssa.Value][]ssa.Instruction{}
 		var all []ssa.Value
 		seen := map[ssa.Value]bool{}
@@ -640,9 +642,12 @@ func c06c(c *Ctx) {
 					case callee(y) == addFn && len(y.Call.Args) == 2 && y.Call.Args[1] == v:
 						flows[v] = append(flows[v], y.Call.Args[0])
 						addCallOf[v] = append(addCallOf[v], y)
+						consumedAt[v] = append(consumedAt[v], y)
 						visit(y.Call.Args[0])
 					case callee(y) == addImp && y.Call.Args[1] == v:
 						otherSink[v] = true
+						otherSinkAt[v] = append(otherSinkAt[v], y)
+						consumedAt[v] = append(consumedAt[v], y)
 					default:
 						// handed to a helper that hands it back (possibly after merging more
 						// data into it): `return p.continueX(left, acc, …)` with `acc.add(more); return …, acc, nil`
@@ -671,6 +676,7 @@ func c06c(c *Ctx) {
 								}
 								if out != nil {
 									flows[v] = append(flows[v], out)
+									consumedAt[v] = append(consumedAt[v], y)
 									visit(out)
 								}
 							}
@@ -681,9 +687,12 @@ func c06c(c *Ctx) {
 					visit(y)
 				case *ssa.Return:
 					sinkRet[v] = append(sinkRet[v], y)
+					consumedAt[v] = append(consumedAt[v], y)
 				case *ssa.MapUpdate:
 					if y.Value == v {
 						otherSink[v] = true
+						otherSinkAt[v] = append(otherSinkAt[v], y)
+						consumedAt[v] = append(consumedAt[v], y)
 					}
 				case *ssa.Store:
 					// put into a record that is stored in a map (`cases[k] = caseRecord{..., impData: v}`)
@@ -697,6 +706,8 @@ func c06c(c *Ctx) {
 								for _, lr := range *ld.Referrers() {
 									if mu, ok := lr.(*ssa.MapUpdate); ok && mu.Value == ssa.Value(ld) {
 										otherSink[v] = true
+										otherSinkAt[v] = append(otherSinkAt[v], mu)
+										consumedAt[v] = append(consumedAt[v], y)
 									}
 								}
 							}
@@ -735,12 +746,44 @@ func c06c(c *Ctx) {
 			key := c.W.FuncKey(fn) + "/" + srcName[s]
 			pos := c.W.Pos(s.Pos())
 			rs, other := reach(s)
+			si := s.(ssa.Instruction)
+			c.mergedInOrder(fn, s, srcName, sources, consumedAt, flows, key, pos)
 			if other {
-				c.OK(key, pos, "handed to the program (addImplicitData / case map)")
+				// ... on every successful path: no successful return is reachable from the source without passing the hand-over
+				var sinks []ssa.Instruction
+				done := map[ssa.Value]bool{}
+				var walk func(v ssa.Value)
+				walk = func(v ssa.Value) {
+					if done[v] {
+						return
+					}
+					done[v] = true
+					sinks = append(sinks, otherSinkAt[v]...)
+					for _, n := range flows[v] {
+						walk(n)
+					}
+				}
+				walk(s)
+				isSink := func(in ssa.Instruction) bool {
+					for _, k := range sinks {
+						if k == in {
+							return true
+						}
+					}
+					return false
+				}
+				w, skip := existsPath(pathQuery{from: after(si), avoid: isSink, edgeOK: notErrorEdge, target: func(in ssa.Instruction) bool {
+					r, ok := in.(*ssa.Return)
+					return ok && c.mayBeSuccessRet(fn, r)
+				}})
+				if skip {
+					c.Bad(key, pos, "the inline data of "+srcName[s]+" is handed to the program only on some paths: the successful return at "+c.W.Pos(w.Pos())+" is reachable without it (its texts / movements would never be defined)")
+					continue
+				}
+				c.OK(key, pos, "handed to the program (addImplicitData / case map) on every successful path")
 				continue
 			}
 			// every successful return reachable from the source must be reached by the flow
-			si := s.(ssa.Instruction)
 			bad := ""
 			nRet := 0
 			for _, r := range returnsOf(fn) {
@@ -793,6 +836,70 @@ func c06c(c *Ctx) {
 		}
 	}
 	_ = sort.Strings
+}
+
+// mergedInOrder: generated labels are numbered in the order the inline data is merged, and the property
+// numbers them in order of first appearance: the data a parse call returns is merged (or handed on)
+// before the next parse call that can return inline data is made.
+func (c *Ctx) mergedInOrder(fn *ssa.Function, s ssa.Value, srcName map[ssa.Value]string, sources []ssa.Value, consumedAt map[ssa.Value][]ssa.Instruction, flows map[ssa.Value][]ssa.Value, key, pos string) {
+	var prod ssa.Instruction
+	switch x := s.(type) {
+	case *ssa.Call:
+		prod = x
+	case *ssa.Extract:
+		if cl, ok := x.Tuple.(*ssa.Call); ok {
+			prod = cl
+		}
+	}
+	if prod == nil {
+		return
+	}
+	// consumption points of s itself and of the phis it flows into unchanged
+	var sinks []ssa.Instruction
+	done := map[ssa.Value]bool{}
+	var walk func(v ssa.Value)
+	walk = func(v ssa.Value) {
+		if done[v] {
+			return
+		}
+		done[v] = true
+		sinks = append(sinks, consumedAt[v]...)
+		for _, n := range flows[v] {
+			if _, isPhi := n.(*ssa.Phi); isPhi {
+				walk(n)
+			}
+		}
+	}
+	walk(s)
+	isSink := func(in ssa.Instruction) bool {
+		for _, k := range sinks {
+			if k == in {
+				return true
+			}
+		}
+		return false
+	}
+	producers := map[ssa.Instruction]string{}
+	for _, o := range sources {
+		switch x := o.(type) {
+		case *ssa.Call:
+			producers[x] = srcName[o]
+		case *ssa.Extract:
+			if cl, ok := x.Tuple.(*ssa.Call); ok {
+				producers[cl] = srcName[o]
+			}
+		}
+	}
+	w, found := existsPath(pathQuery{from: after(prod), avoid: isSink, edgeOK: notErrorEdge, target: func(in ssa.Instruction) bool {
+		_, ok := producers[in]
+		return ok
+	}})
+	c.Check(!found, key+"/merged-in-source-order", pos, "merged before the next parse call that can return inline data (labels are numbered in order of appearance)", func() string {
+		if !found {
+			return ""
+		}
+		return "the inline data of " + srcName[s] + " is still unmerged when " + producers[w] + " (" + c.W.Pos(w.Pos()) + ") parses further inline data: generated labels would not be numbered in order of first appearance"
+	}())
 }
 
 // paramIndexOfTerm: k for a term "$k", -1 otherwise.
